@@ -26,7 +26,8 @@ def run(F, R):
     fin_c = [bi for bi, t in mth.calls() if lib.callee_is(t, "sha2::Digest::finalize")]
     if R.floor("C17-R1", "digest finalisations", min(len(fin_s), len(fin_c)), 1):
         ds = terms.digest_chain(me, W, fin_s[0], N)
-        dc = terms.digest_chain(mth, Wc, fin_c[0], {1: "request_body", 2: "response_data", 3: "key_id", 4: "nonce"})
+        from .. import optnorm
+        dc = terms.digest_chain(mth, Wc, fin_c[0], {1: "request_body", 2: "response_data", 3: "key_id", 4: "nonce"}, xform=lambda t_: optnorm.inline_all(Wc, mth, t_))
         ok = ds is not None and dc is not None and ds[0] == dc[0] and len(ds[1]) == len(dc[1]) == 3 and ds[1][0] == dc[1][0] and ds[1][1] == dc[1][1]
         R.check("C17-R1", "digest-prefix", ok, "server %s / client %s" % (ds and ds[1][:2], dc and dc[1][:2]), "server digest %s differs from client digest %s" % (ds, dc))
         third = ds[1][2] if ds and len(ds[1]) == 3 else None
@@ -53,8 +54,10 @@ def run(F, R):
     vr = lib.bodies(c, item="verify_response", impl_self="cup_ecdsa::StandardCupv2Handler", impl_trait="cup_ecdsa::Cupv2RequestHandler")
     if R.floor("C17-R1", "client verify_response", len(vr), 1):
         v = BV.of(vr[0])
-        so = [t for _, t in v.calls() if lib.callee_is(t, "split_once")]
-        sep = lib.term_const(c, strip(v.trace_op(so[0]["args"][1]))) if so else None
+        # (the split may sit in a private helper of verify_response)
+        cand = [v] + [Wc.bv(i) for i in census.local_callees(Wc, v) if Wc.by_id[i].get("kind") == "fn"]
+        so = [(v2, t) for v2 in cand for _, t in v2.calls() if lib.callee_is(t, "split_once")]
+        sep = lib.term_const(c, strip(so[0][0].trace_op(so[0][1]["args"][1]))) if so else None
         R.check("C17-R1", "client-split", sep == 58, "client splits the ETag at ':'", "client splits at %r" % sep)
 
     # ---------------------------------------------------------------- R2 key lookup
@@ -80,8 +83,12 @@ def run(F, R):
         R.check("C17-R2", "loop-exhaustive", ok, "the historical keys are scanned until a match or exhaustion", "the scan over historical keys can stop early")
     hs = lib.bodies(c, item="new", impl_self="cup_ecdsa::StandardCupv2Handler")
     if hs:
-        r = terms.render(BV.of(hs[0]), BV.of(hs[0]).trace_local(0), Wc, {1: "keys"})
-        R.check("C17-R2", "client-side-map", "chain(once(keys.latest), keys.historical)" in r, "client registers latest + historical", "client key map: %s" % r[:160])
+        from . import c01 as _c01
+        okm, detm = _c01.key_map_registers_all(BV.of(hs[0]), Wc)
+        if okm is None:
+            R.inconclusive("C17-R2", "client-side-map", "the client's key map is built in a way this rule does not know: " + detm)
+        else:
+            R.check("C17-R2", "client-side-map", okm, "client registers latest + historical", "client key map: %s" % detm)
 
     # ---------------------------------------------------------------- R3 response literal ⊇ client-required keys
     R.rule("C17-R3", "for every configured response kind except InvalidResponse the emitted JSON contains every key the client's parser requires at that position; InvalidResponse lacks one")
